@@ -138,7 +138,7 @@ def gen(ctx):
                                 l, h = G.enc(fsk, l), G.enc(fsk, h)
                         else:
                             if b % 3 == 2:      # the widest box inside (-1/2, extent-1/2)
-                                l, h = B.step(fsk, G.enc(fsk, Fr(-1, 2)), -1), B.step(fsk, G.enc(fsk, Fr(2 * s - 1, 2)), -1)
+                                l, h = B.step(fsk, G.enc(fsk, Fr(-1, 2)), 1), B.step(fsk, G.enc(fsk, Fr(2 * s - 1, 2)), -1)
                             else:
                                 l = Fr(rnd.randrange(-3, 8 * s - 4), 8)
                                 h = Fr(rnd.randrange(int(l * 8), 8 * s - 4), 8)
